@@ -148,3 +148,28 @@ Example c07_example_two_keys :
   cnt in_user (insts s) = 3 /\ icanc (geti s 0) = true /\ icanc (geti s 1) = false /\ ilin (geti s 0) = 0 /\ ilin (geti s 2) = 2 /\
   cnt (in_user_lin 0) (insts s) = 1 /\ cnt (in_user_lin 2) (insts s) = 1.
 Proof. vm_compute. repeat split; reflexivity. Qed.
+
+(* the monitor clauses 7/6 and 7/7 (Spec.v: a key that the caller's requests have removed has no instance with a live
+   context inside its routine function and gets no new instance), on the observation format.  A key set {0,1} with both
+   routines running, SyncKeys([0;0]) (a list with a duplicate), then SetContext(other root, restart):
+   - on the model's own observations the checker (correspondence and all monitors) reports nothing;
+   - on a trace in which that SyncKeys call left key 1 alone (nothing removed, its instance still live) 7/6 is false at
+     that step, and 7/7 at the SetContext that starts key 1 again. *)
+From Util Require Import Keyed.Spec.
+Example c07_example_monitor_silent_on_model_trace :
+  let evs := [[1;1;0]; [4;0;0;1]; [14;0;1]; [14;1;1]; [4;0;0;0]; [1;2;1]]%N in
+  length (run_obs step_opt (hinit [0;0;0]%N) evs) = 6%nat /\
+  run_check_keyed [0;0;0]%N evs (run_obs step_opt (hinit [0;0;0]%N) evs) = [].
+Proof. vm_compute. split; reflexivity. Qed.
+Example c07_example_monitor_flags_kept_key :
+  let evs := [[1;1;0]; [4;0;0;1]; [14;0;1]; [14;1;1]; [4;0;0;0]; [1;2;1]]%N in
+  let obss := [[0;0;0;0;0];
+               [2;0;1;0; 2;0;1;1;1001; 2; 1;0;0;0;0; 1;1;0;0;0; 0;0;0];
+               [2;0;1;1;1001; 2; 3;0;1;1;0; 1;1;0;0;0; 0;0;0];
+               [2;0;1;1;1001; 2; 3;0;1;1;0; 3;1;1001;1;0; 0;0;0];
+               [0;0; 2;0;1;1;1001; 2; 3;0;1;1;0; 3;1;1001;1;0; 0;0;0];
+               [2;0;1;1;1001; 4; 3;0;1;1;1; 3;1;1001;1;1; 1;0;0;0;0; 1;1;0;0;0; 0;0;0]]%N in
+  let is7 (c i : nat) (x : issue) := match x with PropFalse 7%nat c' i' => Nat.eqb c c' && Nat.eqb i i' | _ => false end in
+  existsb (is7 6%nat 4%nat) (run_check_keyed [0;0;0]%N evs obss) = true /\
+  existsb (is7 7%nat 5%nat) (run_check_keyed [0;0;0]%N evs obss) = true.
+Proof. vm_compute. split; reflexivity. Qed.
